@@ -184,6 +184,28 @@ class HostWorld:
             "RESETDONE=%s" % ("CANCELLED" if tk.cancelled() else type(tk.exception()).__name__ if tk.exception() else "OK")))
         self.loop.settle()
 
+    def reconnect(self):
+        """the real `ZBOSS.connect()` on the same object (after `close()`): `uart.connect` runs, only
+        `zigpy.serial.create_serial_connection` is substituted by the recording transport"""
+        import zigpy.serial
+        world = self
+
+        async def create_serial_connection(loop, protocol_factory, url, **kw):
+            p = protocol_factory()
+            p.connection_made(world.tr)
+            world.p = p
+            world.log.append("RECONNECTED")
+            return world.tr, p
+        with mock.patch.object(zigpy.serial, "create_serial_connection", create_serial_connection):
+            tk = self.loop.create_task(self.api.connect())
+            self.loop.settle()
+            if not tk.done():
+                tk.cancel()
+                self.loop.settle()
+                self.log.append("RECONNECT-FAILED")
+            elif tk.exception() is not None:
+                self.log.append("RECONNECT-FAILED:" + type(tk.exception()).__name__)
+
     def now_ms(self):
         return int(round(self.loop.time() * 1000))
 
